@@ -156,7 +156,8 @@ def gen_case(rng, backend, tier, float_angles=False):
         n = max([q for s in gates for q in s["target"] + (s["control"] or [])]) + 1
         prefix = [s for s in prefix if all(q < n for q in s["target"] + (s["control"] or []))]
     return {"backend": backend, "n": n, "n_arg": n if declared else None, "prefix": prefix, "gates": gates,
-            "isv": bool(prefix) or rng.random() < 0.2, "top_idle": bool(declared and top_idle)}
+            "isv": bool(prefix) or rng.random() < 0.2, "top_idle": bool(declared and top_idle),
+            "isv_kind": rng.choice(["array", "array", "list"] if backend == "cirq" else ["array", "column", "sympy-matrix"])}
 
 
 def ref_states(case):
@@ -177,12 +178,15 @@ def run_impl(case, order, n_shots=None, want_sv=True, isv_override=None):
     if case["isv"]:
         psi0 = np_sim.run(gl(case["prefix"]), n) if isv_override is None else isv_override
         isv = to_order(psi0, n, order)
-        if case["backend"] == "sympy":
-            isv = isv.reshape(-1, 1)
-        elif case.get("isv_kind") == "list":
+        kind = case.get("isv_kind") or ("column" if case["backend"] == "sympy" else "array")
+        if kind == "list":
             isv = [complex(z) for z in isv]          # a plain Python list (Backend.simulate documents "list/array")
-        elif case.get("isv_kind") == "column":
+        elif kind == "column":
             isv = isv.reshape(-1, 1)
+        elif kind == "sympy-matrix":
+            import sympy
+            isv = sympy.Matrix([[sympy.sympify(complex(z))] for z in isv])
+        # "array": the 1-D numpy array as it is
     f, sv = sim.simulate(c, return_statevector=want_sv, initial_statevector=isv)
     f = {k: float(np.real(complex(v))) if not hasattr(v, "__len__") else float(np.real(complex(np.asarray(v).ravel()[0]))) for k, v in f.items()}
     if sv is not None:
@@ -846,6 +850,58 @@ def gateless_stream(ck, orders):
 
 
 
+def bit_order_stream(ck, orders):
+    """Bit order decided exactly: basis states and product states that are NOT symmetric under reversal of the qubit order, supplied
+    as initial statevector in every accepted container (1-D array, list, column, sympy matrix), without gates and with a few gates that
+    keep the distribution sharply peaked, in exact and in sampled mode, on both backends, against np_sim in Tangelo's documented order
+    (keys list qubit 0 first; vectors in the advertised order).  Sampled runs are judged on exact invariants (support, determinism)."""
+    ck.stream("bit-order", "asymmetric basis / product initial states (X on a non-palindromic subset, optionally H on one qubit) on 2-3 qubits x containers "
+              "(cirq: array, list; sympy: array, column, sympy matrix, list for gate-less) x {no gate, X on the top qubit, CNOT 0->top, X 0 + CNOT} x {exact, n_shots=23}; "
+              "np_sim oracle; the same cases run on cirq and sympy")
+    X = lambda q: {"name": "X", "target": [q], "control": None, "k": None}          # noqa
+    Hd = lambda q: {"name": "H", "target": [q], "control": None, "k": None}         # noqa
+    for nq in (2, 3):
+        top = nq - 1
+        states = [[X(0)], [X(0), Hd(top)]] + ([[X(0), X(1)], [X(1), X(2), Hd(0)]] if nq == 3 else [[Hd(0)]])
+        gate_sets = [[], [X(top)], [{"name": "CNOT", "target": [top], "control": [0], "k": None}], [X(0), {"name": "CNOT", "target": [top], "control": [0], "k": None}]]
+        for backend in ("cirq", "sympy"):
+            kinds = ["array", "list"] if backend == "cirq" else ["array", "column", "sympy-matrix", "list"]
+            for pre in states:
+                for gi, gates in enumerate(gate_sets):
+                    for kind in kinds:
+                        if backend == "sympy" and kind == "list" and gates:
+                            continue            # SympySimulator refuses a list for circuits with gates (explicit ValueError): no claim
+                        for n_shots in (None, 23):
+                            case = {"backend": backend, "n": nq, "n_arg": nq, "prefix": pre, "gates": gates, "isv": True, "isv_kind": kind}
+                            psi0, ref = ref_states(case)
+                            probs = np.abs(ref) ** 2
+                            mode = "exact" if n_shots is None else "sampled"
+                            cls = "%s/isv-%s/%s" % (mode, kind, "with-gates" if gates else "gate-less")
+                            seed = 1000 * nq + 10 * gi + len(pre)
+                            np.random.seed(seed)
+                            replay = {"kind": "sampled" if n_shots else "exact", "case": case, "order": orders[backend], "n_shots": n_shots, "seed": seed}
+                            try:
+                                f, sv = run_impl(case, orders[backend], n_shots=n_shots, want_sv=n_shots is None)
+                            except Exception as e:      # noqa
+                                ck.case("bit-order", json.dumps([case, n_shots], sort_keys=True), nontrivial=True, sample={"case": cls, "raised": type(e).__name__}, tags=[backend, mode, "isv-" + kind, "raised"])
+                                ck.violation("C01/%s/bit-order/raises/%s/%s" % (backend, type(e).__name__, cls), "simulate(n_shots=%s) raised %s: %s; initial state prepared by %s, gates %s"
+                                             % (n_shots, type(e).__name__, str(e)[:120], json.dumps(pre)[:200], json.dumps(gates)[:200]), replay)
+                                continue
+                            if n_shots is None:
+                                bad = property_issues(case, orders[backend], f, sv, ref)
+                            else:
+                                # sympy ignores n_shots for circuits with gates (exact frequencies): integer counts only where shots are drawn
+                                bad = sampled_issues(f, probs, nq, n_shots if (backend == "cirq" or not gates) else None)
+                            ck.case("bit-order", json.dumps([case, n_shots], sort_keys=True), nontrivial=True,
+                                    sample={"backend": backend, "mode": mode, "isv": kind, "prepared_by": [g["name"] + str(g["target"]) for g in pre], "gates": len(gates), "frequencies": f},
+                                    tags=[backend, mode, "isv-" + kind, "with-gates" if gates else "gate-less", "n=%d" % nq])
+                            if bad:
+                                ck.violation("C01/%s/bit-order/%s" % (backend, cls), "%s; initial state prepared by %s (qubit 0 first key of its support: %s), gates %s, returned frequencies %s"
+                                             % ("; ".join(bad[:2]), json.dumps([g["name"] + str(g["target"]) for g in pre]), [key_of(x, nq) for x in range(1 << nq) if abs(psi0[x]) > 1e-9],
+                                                json.dumps(gates)[:200], f), replay)
+
+
+
 def float_stream(ck, orders):
     rng = ck.rng
     ck.stream("float-angles", "random circuits with uniform real angles in [-14, 14] (beyond +-4*pi) against np_sim (tolerance 1e-8), cirq and a few sympy; "
@@ -1052,6 +1108,7 @@ def run(ck):
     guarded("sampled", sampled_stream, ck, orders, chunk)
     guarded("special-angles", special_angles_stream, ck, orders)
     guarded("gate-less", gateless_stream, ck, orders)
+    guarded("bit-order", bit_order_stream, ck, orders)
     guarded("malformed", malformed_stream, ck, tables, orders)
     guarded("float-angles", float_stream, ck, orders)
     if ck.tier == "thorough":
